@@ -124,6 +124,9 @@ def run_profile(ctx, gen, n, config='default', claims=None, extra_oracle=None, t
                 # follows is still judged by the reference semantics (a round trip must change nothing), so that the
                 # consequences for THIS property are found as a concrete failing history
                 if got == 'RTFAIL' and a == 'OK': continue
+                # likewise a refresh that is ACCEPTED where it had to be refused belongs to C08 / C17: the reference semantics
+                # leaves the key as it was, and what the (now different) key opens afterwards is still judged by the key's policy
+                if got == 'OK' and a == 'ERR' and scr[ln].split(' ')[0] == 'RF': continue
                 break
         for (ln, prop, what) in hist.generic_oracles(scr, out):
             if prop == ctx.prop: hits.append((h, ln, what, None))
@@ -148,6 +151,7 @@ def run_profile(ctx, gen, n, config='default', claims=None, extra_oracle=None, t
                     if a2 != g2:
                         if claims is None or claims(c[ln2].split(' ')[0], a2, g2): return True
                         if g2 == 'RTFAIL' and a2 == 'OK': continue
+                        if g2 == 'OK' and a2 == 'ERR' and c[ln2].split(' ')[0] == 'RF': continue
                         break
             gv = [w for (_, p, w) in hist.generic_oracles(c, out) if p == ctx.prop]
             if gv and 'expected' not in what: return True
@@ -187,6 +191,13 @@ def run_profile(ctx, gen, n, config='default', claims=None, extra_oracle=None, t
                     suf.append(f'KG {hist.x(pol)}')
                 suf += [f'DE {k} {j}' for k in range(nk + len(atts)) for j in range(e)][:160]
                 probes.append(pre + suf)
+            # ... and WITHOUT a further update: the window right after the disagreeing operation, under the newest public key
+            # (single attributes and conjunctions across two dimensions), every existing key against what results
+            names = [(bytes.fromhex(dd[1:]).decode(), bytes.fromhex(aa[1:]).decode()) for (dd, aa) in atts]
+            pols = [f'{d}::{a}' for d, a in names] + [f'{d}::{a} && {d2}::{a2}' for i, (d, a) in enumerate(names) for (d2, a2) in names[i + 1:] if d2 != d]
+            suf = [f'EN {nm - 1} {hist.x(q)}' for q in pols[:24]]
+            suf += [f'DE {k} {j}' for k in range(nk) for j in range(ne + len(suf))][:160]
+            probes.append(pre + suf)
         if probes:
             _, _, _, _, phits = run_profile(ctx, None, 0, config=config, claims=claims, extra_oracle=extra_oracle, trigger=None, label='directed search from disagreeing histories', model_check=False, histories=probes)
             hits = hits + phits
